@@ -49,12 +49,14 @@ LineText(l) ==
 
 \* the row a table variant extracts: <<admitted, k, v>>
 \*   "plain": both nullable;  "knn": k NOT NULL;  "vdef": v INT DEFAULT 7;  "bothnn": k NOT NULL and v NOT NULL;
+\*   "nndef": k NOT NULL and v INT DEFAULT 7 (a line that matches nothing has the default and still fails NOT NULL);
+\*   "udef": the JOINED table's column w has DEFAULT 7 (rows of the joined file get it; the NULL row of an OUTER JOIN does not);
 \*   "anch": the pattern is anchored at both ends of the line (^...$);  "vreal": v is a REAL column (lines carry REAL values)
 RowOf(tdef, l) ==
   LET k == IF l.kind = "kv" THEN l.k ELSE IF l.kind = "longpre" /\ tdef # "anch" THEN TextV(<<97>>) ELSE Null
       v0 == IF l.kind = "kv" THEN l.v ELSE IF l.kind = "longpre" /\ tdef # "anch" THEN IntV(1) ELSE Null
-      v == IF tdef = "vdef" /\ IsNull(v0) /\ l.kind # "bigv" THEN IntV(7) ELSE v0        \* DEFAULT: only when the group took no part
-      admitted == (~IsNull(k) \/ ~IsNull(v)) /\ (tdef \in {"knn", "bothnn"} => ~IsNull(k)) /\ (tdef = "bothnn" => ~IsNull(v))
+      v == IF tdef \in {"vdef", "nndef"} /\ IsNull(v0) /\ l.kind # "bigv" THEN IntV(7) ELSE v0        \* DEFAULT: only when the group took no part
+      admitted == (~IsNull(k) \/ ~IsNull(v)) /\ (tdef \in {"knn", "bothnn", "nndef"} => ~IsNull(k)) /\ (tdef = "bothnn" => ~IsNull(v))
   IN <<admitted, k, v>>
 
 MainEnv(tdef, l) ==
@@ -101,10 +103,11 @@ ToReal(v) == IF IsNull(v) THEN Null
              ELSE IF v.b = 0 THEN RealV(v.i, 1)
              ELSE IF v.b = 3 THEN (IF v.i = 2 THEN P53b ELSE IF v.i \in {0, 1} THEN P53 ELSE [t |-> "unk"])    \* 2^53 + 1 is not a REAL: it reads as 2^53
              ELSE [t |-> "unk"]
-JoinedRow(l) == LET r == RowOf("plain", l) IN IF tdef = "numjoin" THEN <<r[1], r[2], ToReal(r[3])>> ELSE r
+JoinedRow(l) == LET r == RowOf(IF tdef = "udef" THEN "vdef" ELSE "plain", l) IN IF tdef = "numjoin" THEN <<r[1], r[2], ToReal(r[3])>> ELSE r
 JKeyMain(env) == IF tdef = "numjoin" THEN env["v"] ELSE env["k"]
 JKeyJoined(s) == IF tdef = "numjoin" THEN s[2] ELSE s[1]
 
+BadJoinKind(j) == j \in {"badfile", "badcol", "dirfile"}
 HasLimit == q.limit # NoLimit
 LimitReached == HasLimit /\ nout >= q.limit
 IsAgg == q.kind = "agg"
@@ -273,6 +276,7 @@ Init ==
   /\ intr \in InterruptPoints
   /\ (intr.at = "join") => q.join # "none"
   /\ (intr.at # "none") => mode = "batch"
+  /\ BadJoinKind(q.join) => (mode = "batch" /\ intr.at = "none")
   /\ pc = "loadjoin"
   /\ running = TRUE
   /\ ji = 0 /\ jidx = <<>>
@@ -283,8 +287,16 @@ Init ==
 \* ------------------------------------------------------------------ actions
 Interrupted(at, n) == intr.at = at /\ intr.n = n
 
+\* q.join = "badfile" (the joined file does not exist) / "badcol" (ON names a column the joined table lacks): an error, whatever the input and the LIMIT
+\* "dirfile": the joined path is a directory (it opens, every read fails): the run must end; its outcome is not predicted
+BadJoin == q.join \in {"badfile", "badcol", "dirfile"}
+JoinFails ==
+  /\ pc = "loadjoin" /\ BadJoin
+  /\ status' = (IF q.join = "dirfile" THEN "unk" ELSE "err") /\ pc' = "done"
+  /\ UNCHANGED <<cvars, running, ji, jidx, fi, li, hooks, consumed, seen, nout, groups, printed, steps>>
+
 LoadJoinLine ==
-  /\ pc = "loadjoin"
+  /\ pc = "loadjoin" /\ ~BadJoin
   /\ IF q.join = "none" \/ ji >= Len(jlines)
      THEN /\ pc' = "read" /\ UNCHANGED <<ji, jidx, running>>
      ELSE LET run1 == running /\ ~Interrupted("join", ji)          \* hook join_line(ji): the interrupt may land here
@@ -418,7 +430,7 @@ Close ==
   /\ closed' = TRUE
   /\ UNCHANGED <<cvars, pc, running, ji, jidx, fi, li, hooks, consumed, seen, nout, groups, printed, steps, status>>
 
-Next == \/ (LoadJoinLine \/ ReadLine \/ NoFiles \/ Final) /\ UNCHANGED closed
+Next == \/ (LoadJoinLine \/ JoinFails \/ ReadLine \/ NoFiles \/ Final) /\ UNCHANGED closed
         \/ (closed /\ NextFile /\ UNCHANGED closed)
         \/ (\E l \in LineSet : Arrive(l)) \/ Close
 Spec == Init /\ [][Next]_vars
@@ -449,7 +461,8 @@ SemEnvs(ls, jl) ==
   IN IF q.join = "none" THEN main ELSE go(main, <<>>)
 
 SemResult(ls, jl) ==     \* the whole statement, LIMIT included
-  IF IsAgg THEN LET t == AggTable(q, SemEnvs(ls, jl)) IN Out(Take(q.limit, t.recs), t.st)
+  IF BadJoin THEN Out(<<>>, IF q.join = "dirfile" THEN "unk" ELSE "err")          \* C05: a missing joined file or join column is an error, never an empty result
+  ELSE IF IsAgg THEN LET t == AggTable(q, SemEnvs(ls, jl)) IN Out(Take(q.limit, t.recs), t.st)
   ELSE LET t == SelectAll(q, SemEnvs(ls, jl), StarCols(q), <<>>) IN
        \* an error beyond the LIMIT-th row is never reached
        IF HasLimit /\ Len(t.recs) >= q.limit THEN Out(Take(q.limit, t.recs), "ok") ELSE t
